@@ -6,6 +6,7 @@ import Tftp.Lemmas.Net
 import Tftp.Lemmas.NetLoss
 import Tftp.Lemmas.NetLossW
 import Tftp.Lemmas.NetTotal
+import Tftp.Lemmas.NetSafe
 /-!
 # C04 — Loss tolerance
 
@@ -382,5 +383,21 @@ example : (netRun exLockSc exLockRc exDeadFl 50 (netInit exLockSc exLockRc exDea
     (netRun exLockSc exLockRc exDeadFl 50 (netInit exLockSc exLockRc exDeadFl [1, 2, 3])).r.retry = Gen.maxRetries ∧
     (netRun exLockSc exLockRc exDeadFl 50 (netInit exLockSc exLockRc exDeadFl [1, 2, 3])).s.status = .failed := by
   decide
+
+end Tftp
+
+namespace Tftp
+
+/-- **success on the sending side means the copy has arrived**: at every moment of every run of the closed loop -
+every fault schedule, every file length and window size - if the sending side has ended successfully then the
+receiving side has ended successfully too and its file is byte-identical. (The converse fails only in RFC 1350's
+permitted way: the final acknowledgement may be lost, see `c04_closed_loop_total`.) -/
+theorem c04_sender_success_means_delivered (sc : SCfg) (rc : RCfg) (hb : 0 < sc.b) (hw1 : 1 ≤ sc.w) (hw : sc.w < 65536)
+    (hrep : sc.rep = 1) (ht : 0 < sc.timeout) (hrb : rc.b = sc.b) (hrw : rc.w = sc.w) (hrrep : rc.rep = 1)
+    (fl : Faults) (f : Bytes) (fuel : Nat) :
+    (netRun sc rc fl fuel (netInit sc rc fl f)).s.status = .ok →
+      (netRun sc rc fl fuel (netInit sc rc fl f)).r.status = .ok ∧
+      (netRun sc rc fl fuel (netInit sc rc fl f)).r.win.file.content = f :=
+  closed_loop_sender_success sc rc ⟨⟨hb, hw1, hw, hrep, hrb, hrw, hrrep⟩, ht⟩ fl f fuel
 
 end Tftp
